@@ -5,13 +5,13 @@
     of /repo HEAD, tied to real bash by T2).
 
     [e] is a validated tree before level assignment, [propagate e 0] the [||] grammar, [propagate (bar_of_barbar e) 0]
-    its [|] variant.  [undercut g en ws p] (Proofs/C09Mono.v, executable, extracted for lib/vf/checks/c09.py) lists
+    its [|] variant.  [undercut g en ws p] (Spec/Undercut.v, executable, extracted for lib/vf/checks/c09.py) lists
     the candidates of [g] at the cursor that are withheld because a strictly earlier level has a candidate extending
     the typed word [p] -- on the two tiers of Spec/Meaning.v: among the items expected as whole words (levels of the
     [||] branches, [state_cands]) and among the continuations of one within-word expression (levels of its pieces,
     [wcands]); [C09_undercut_meaning] spells that out. *)
 From CG Require Import Model.Dfa Model.Tables Model.Glob Model.BashSem Model.Driver.
-From CG Require Import Base.Prelude Model.Ast Model.Check Spec.Rx Spec.Meaning Spec.KnownC01 Spec.Domain.
+From CG Require Import Base.Prelude Model.Ast Model.Check Spec.Rx Spec.Meaning Spec.Undercut Spec.KnownC01 Spec.Domain.
 From CG Require Import Proofs.MeaningFacts Proofs.MeaningLevels Proofs.C09Mono.
 From CG Require Import Proofs.TreeFacts Proofs.GlobFacts Proofs.StripFacts Proofs.LangBridge Proofs.SubTreeFacts Proofs.BashMeaningSub Proofs.SubChecks Proofs.BashMeaningMix Proofs.C01Layers.
 From CG Require Import Spec.Invocations.
